@@ -165,6 +165,16 @@ func (w *World) Probe(name string) { w.Probes[name]++ }
 // Violate records a finding of the property under check; findings for other properties become notes.
 func (w *World) Violate(prop, class, format string, a ...interface{}) {
 	f := report.Finding{Property: prop, Class: class, Detail: fmt.Sprintf(format, a...)}
+	if w.O.Prop == "C16" && (prop == "C02" || prop == "C03" || prop == "C04" || prop == "C08" || prop == "C09" || prop == "C10") {
+		// C16: the lease guarantees keep holding under concurrent load
+		f = report.Finding{Property: "C16", Class: "lease-guarantee/" + prop + "/" + class, Detail: f.Detail}
+		prop = "C16"
+	}
+	if w.O.Prop == "C16" && (prop == "C11" || prop == "C12") {
+		// C16: replies keep matching their request while receive buffers are recycled between datagrams
+		f = report.Finding{Property: "C16", Class: "reply-attribution/" + prop + "/" + class, Detail: f.Detail}
+		prop = "C16"
+	}
 	if prop == w.O.Prop {
 		w.Findings = append(w.Findings, f)
 		if len(w.Findings) >= 20 {
@@ -209,9 +219,9 @@ func (f fatalExit) String() string {
 	return fmt.Sprintf("log.Fatal/os.Exit(%d) called by the server", f.code)
 }
 
-func (w *World) buildConfig() (*config.Config, error) {
+func (w *World) buildConfig(inc int) (*config.Config, error) {
 	if w.UseConfigFile {
-		p := filepath.Join(w.Dir, fmt.Sprintf("config-%d.yml", w.Inc))
+		p := filepath.Join(w.Dir, fmt.Sprintf("config-%d.yml", inc))
 		if err := os.WriteFile(p, []byte(w.ConfigText), 0o644); err != nil {
 			return nil, err
 		}
@@ -243,24 +253,35 @@ func (w *World) iface(idx int) net.Interface {
 	return net.Interface{}
 }
 
+// startResult is what the "main" task of an incarnation reports back. Task-context harness code never writes
+// World fields directly: the scheduler side may have read them earlier and there is, on purpose, no
+// happens-before edge from the scheduler to tasks (the race detector would rightly object).
+type startResult struct {
+	Inc     int
+	Err     string
+	Started bool
+	Ports   []int
+	LSpecs  []ListenerSpec // set when the listeners come from the configuration file
+}
+
 // serverMain is the body of the "main" task of one incarnation: the real
 // plugin loader, then one real Serve loop per listener.
-func (w *World) serverMain() {
-	inc := w.Inc
-	conf, err := w.buildConfig()
+func (w *World) serverMain(inc int, useFile bool, specs []ListenerSpec) {
+	res := &startResult{Inc: inc}
+	defer simrt.UserLog(res)
+	conf, err := w.buildConfig(inc)
 	if err != nil {
-		w.StartErr[inc-1] = "config: " + err.Error()
+		res.Err = "config: " + err.Error()
 		return
 	}
 	h4, h6, err := plugins.LoadPlugins(conf)
 	if err != nil {
-		w.StartErr[inc-1] = err.Error()
+		res.Err = err.Error()
 		return
 	}
-	w.handlers4, w.handlers6 = h4, h6
-	if w.UseConfigFile {
+	if useFile {
 		// listeners as configured: a zone binds the listener to that interface (as listen4/listen6 do)
-		w.LSpecs = nil
+		specs = nil
 		add := func(sc *config.ServerConfig, v6 bool) bool {
 			if sc == nil {
 				return true
@@ -270,41 +291,41 @@ func (w *World) serverMain() {
 				if a.Zone != "" {
 					ifi, err := simrt.InterfaceByName(a.Zone)
 					if err != nil {
-						w.StartErr[inc-1] = "listen: " + err.Error()
+						res.Err = "listen: " + err.Error()
 						return false
 					}
 					ls.IfIndex = ifi.Index
 				}
-				w.LSpecs = append(w.LSpecs, ls)
+				specs = append(specs, ls)
 			}
 			return true
 		}
 		if !add(conf.Server6, true) || !add(conf.Server4, false) {
 			return
 		}
-		w.ports = make([]int, len(w.LSpecs))
+		res.LSpecs = specs
 	}
+	res.Ports = make([]int, len(specs))
 	var serve []func() error
-	for i, ls := range w.LSpecs {
+	for i, ls := range specs {
+		res.Ports[i] = -1
 		if ls.V6 {
 			if conf.Server6 == nil {
-				w.ports[i] = -1
 				continue
 			}
 			l := server.NewSimListener6(h6, w.iface(ls.IfIndex))
-			w.ports[i] = l.Port
+			res.Ports[i] = l.Port
 			serve = append(serve, l.Serve)
 		} else {
 			if conf.Server4 == nil {
-				w.ports[i] = -1
 				continue
 			}
 			l := server.NewSimListener4(h4, w.iface(ls.IfIndex))
-			w.ports[i] = l.Port
+			res.Ports[i] = l.Port
 			serve = append(serve, l.Serve)
 		}
 	}
-	w.Started[inc-1] = true
+	res.Started = true
 	for _, f := range serve {
 		f := f
 		simrt.Go(-1, func() {
@@ -323,7 +344,8 @@ func (w *World) StartServer() {
 	for i := range w.ports {
 		w.ports[i] = -1
 	}
-	w.Sim.Spawn("main", w.serverMain)
+	inc, useFile, specs := w.Inc, w.UseConfigFile, append([]ListenerSpec(nil), w.LSpecs...)
+	w.Sim.Spawn("main", func() { w.serverMain(inc, useFile, specs) })
 	w.hist("server incarnation %d starts", w.Inc)
 }
 
@@ -425,6 +447,19 @@ func (logHook) Fire(e *logrus.Entry) error {
 // drainUserLog hands handler-level observations (logged by the observer around every plugin handler) to the scenario.
 func (w *World) drainUserLog() {
 	for _, u := range w.Sim.TakeUserLog() {
+		if sr, ok := u.Rec.(*startResult); ok {
+			if sr.Inc == w.Inc {
+				w.StartErr[sr.Inc-1] = sr.Err
+				w.Started[sr.Inc-1] = sr.Started
+				if sr.LSpecs != nil {
+					w.LSpecs = sr.LSpecs
+				}
+				if sr.Ports != nil {
+					w.ports = sr.Ports
+				}
+			}
+			continue
+		}
 		if ll, ok := u.Rec.(*LogLine); ok {
 			w.hist("server log [%s] (dg%d): %s", ll.Level, u.Tag, ll.Msg)
 			w.Logged = append(w.Logged, ll)
@@ -639,6 +674,10 @@ func Run(o Options) report.Run {
 	w.Sim = sim
 	sim.Hooks = simrt.Hooks{OnCapture: w.onCapture, OnTaskEnd: w.onTaskEnd}
 	w.sc.Plan(w)
+	if raceEnabled {
+		// no log line is formatted or written: logrus' own mutex must not order handlers by accident
+		w.LogLevel = logrus.PanicLevel
+	}
 	w.ports = make([]int, len(w.LSpecs))
 	sim.SetInterfaces(w.Ifaces)
 	lg := logger.GetLogger("verif").Logger
